@@ -313,7 +313,7 @@ class UpnpFactory:
             if data_type == bool:
                 default_value = default_value == "1"
             else:
-                default_value = data_type(default_value)
+                default_value = data_type_mapping["in"](default_value)
             key.default = default_value
 
         return vol.Schema(vol.All(*validators))
